@@ -156,11 +156,20 @@ func runC14(c *core.Ctx) error {
 			// stratum: mutation kind (or size class for unmutated), option row
 			st := m.Mut + "|" + m.Opt
 			if m.Mut == "none" {
-				nf := 0
-				for _, cb := range m.Schema {
-					nf += len(cb.Fields)
+				// unmutated: the rarest shape it contains (so that every shape x option row has a stratum)
+				rare := "other"
+				have := map[string]bool{}
+				for _, k := range kindsOf(&m) {
+					have[k] = true
 				}
-				st = fmt.Sprintf("none%d-%d|%s", len(m.Schema), nf/3, m.Opt)
+				for _, k := range []string{"f:rec", "f:tparam", "f:nparr", "f:npmask", "f:tinst", "c:template", "f:arr", "f:mtrue", "f:mint", "f:maybe",
+					"f:dict", "f:dictany", "f:pair", "f:tuplec", "f:arrc", "f:vec", "f:ref", "c:variant", "c:func", "f:bool", "f:double"} {
+					if have[k] {
+						rare = k
+						break
+					}
+				}
+				st = fmt.Sprintf("none-%s|%s", rare, m.Opt)
 			}
 			// reservoir of 40 per stratum
 			strataSeen[st]++
